@@ -81,12 +81,39 @@ fn main() {
                 }
             }
         }
-        "c18_allow" | "c18_response" => {
-            let (configured, n, inmask, peer_ok) = (inp("configured") != 0, inp("n") as usize, inp("inmask"), inp("peer_ok") != 0);
-            if plan.scenario == "c18_allow" && !peer_ok {
+        "c18_allow" => {
+            // the solver's allowlist and peer, verbatim: networks through add_allowed_address("a.b.c.d/len"), the request from the peer's loopback address
+            let (configured, n, peer_ok) = (inp("configured") != 0, inp("n") as usize, inp("peer_ok") != 0);
+            if !peer_ok {
                 println!("a failing peer_addr() cannot be provoked natively: not replayable");
                 finish(&v, &plan);
             }
+            let dotted = |x: u64| format!("{}.{}.{}.{}", (x >> 24) & 255, (x >> 16) & 255, (x >> 8) & 255, x & 255);
+            let list: Option<Vec<String>> = if configured {
+                Some((0..n).map(|i| format!("{}/{}", dotted(inp(&format!("addr{}", i))), inp(&format!("plen{}", i)))).collect())
+            } else { None };
+            if configured && n == 0 {
+                println!("an empty allowlist cannot be configured through the builder: not replayable");
+                finish(&v, &plan);
+            }
+            let peer = dotted(inp("peer"));
+            let inside = inp("inside") != 0;
+            let addr = match serve(list.clone()) { Ok(a) => a, Err(e) => { println!("exporter does not start with {:?}: {}", list, e); v.push("terminates"); finish(&v, &plan) } };
+            let r = get(addr, &peer, "/metrics");
+            println!("allowlist {:?}; peer {} (inside a listed network: {}) GET /metrics -> {:?}", list, peer, inside, r.as_ref().map(|x| x.0));
+            let should_serve = !configured || inside;
+            match r {
+                Some((200, _)) => { if !should_serve { v.push("outside_peer_refused"); } }
+                Some((403, _)) => { if should_serve { v.push(if configured { "inside_peer_served" } else { "no_allowlist_serves_everyone" }); } }
+                other => {
+                    println!("unexpected exchange: {:?}", other);
+                    v.push("terminates");
+                }
+            }
+        }
+        "c18_response" => {
+            let (configured, n, inmask, peer_ok) = (inp("configured") != 0, inp("n") as usize, inp("inmask"), inp("peer_ok") != 0);
+            let _ = peer_ok;
             let health = inp("health") != 0;
             let list: Option<Vec<String>> = if configured {
                 Some((0..n).map(|i| if inmask >> i & 1 == 1 { "127.0.0.2/32".to_string() } else { format!("127.0.0.{}/32", 10 + i) }).collect())
